@@ -74,6 +74,11 @@ def opaque_value_cases(rng, n):
             r = x.replace(payload=w)
             if r.key is not t or r.kid is not inner or r.kids is not x.kids or r.payload is not w:
                 fail = "replace(): an untouched init field does not hold the very same object / the changed field not the given value"
+            given = [w, {"k": (1, 2)}]
+            r3 = x.replace(payload=given, key=[u])
+            if fail is None and (r3.payload is not given or type(r3.key) is not list or r3.key[0] is not u):
+                fail = f"replace(): a changed field does not hold the given value (given a list, holds {type(r3.payload).__name__} / {type(r3.key).__name__})"
+            del r3
             r2 = _dc.replace(r, key=u)
             if fail is None and (r2.payload is not w or r2.kid is not inner or r2.key is not u):
                 fail = "dataclasses.replace(): an untouched init field does not hold the very same object"
